@@ -242,56 +242,73 @@ def r3_verbatim(ctx, handlers):
 
 
 def r4_joins(ctx):
+    """No sub-token is dropped or altered between the lists of the token and the exported text (element-wise model of the
+    export, per feasible path)."""
     fi = ctx.prog.func(f'{N.TOKENS}.NoteRestToken.export')
-    env, joins, ev = c01.export_flows(ctx, fi)
+    eps, joins = c01.export_joins(ctx, fi)
     ctx.expect_count('R4', 'joins fed by the sub-token lists', len(joins), 2)
-    for n, fl in joins:
-        at = f'{fi.module.relpath}:{n.lineno}'
-        which = '+'.join(sorted(fl.sources))
-        ctx.check(not fl.sliced, 'R4', at, fi.qualname, f'sliced-join:{which}',
-                  f'{which}: no slice or index between the filter and the join', f'{which}: a slice/index drops sub-tokens before `{src(n)[:60]}`')
-        if isinstance(n, ast.Call):
-            arg = n.args[0]
-            if isinstance(arg, (ast.GeneratorExp, ast.ListComp)):
-                g = arg.generators[0]
-                elt_ok = isinstance(g.target, ast.Name) and src(arg.elt) == f'{g.target.id}.encoding'
-                ctx.check(elt_ok, 'R4', at, fi.qualname, f'join-element:{which}', f'{which}: each element contributes its encoding unchanged',
-                          f'{which}: elements contribute `{src(arg.elt)[:60]}`')
-                if g.ifs:
-                    # only the agnostic branch may select by category, and then DURATION + PITCH/ALTERATION must both be emitted
-                    sel = ' '.join(src(c) for c in g.ifs)
-                    ok = 'TokenCategory.DURATION' in sel or ('TokenCategory.PITCH' in sel and 'TokenCategory.ALTERATION' in sel)
-                    ctx.check(ok, 'R4', at, fi.qualname, f'join-extra-filter:{which}',
-                              f'{which}: the only additional selection is the duration / pitch split of the agnostic branch',
-                              f'{which}: sub-tokens are additionally filtered by `{sel[:80]}`')
-    # agnostic branch: duration part + pitch part together cover DURATION, PITCH, ALTERATION
-    s = src(fi.node)
-    ok = 'TokenCategory.DURATION' in s and 'TokenCategory.PITCH' in s and 'TokenCategory.ALTERATION' in s
-    ctx.check(ok, 'R4', fi.loc, fi.qualname, 'agnostic-branch-covers-categories',
-              'the agnostic branch emits the DURATION sub-tokens and converts the PITCH + ALTERATION sub-tokens')
-    # the filter comprehension itself iterates the whole list
-    for lst in ('pitch_duration_subtokens', 'decoration_subtokens'):
-        comps = [c for c in walk_local(fi.node) if isinstance(c, (ast.ListComp, ast.GeneratorExp)) and len(c.generators) == 1
-                 and src(c.generators[0].iter) == f'self.{lst}']
-        ctx.check(len(comps) >= 1, 'R4', fi.loc, fi.qualname, f'whole-list:{lst}', f'the whole list {lst} enters the export')
-    # early exits
-    rets = [n for n in walk_local(fi.node) if isinstance(n, ast.Return)]
-    ctx.check(len(rets) == 1, 'R4', fi.loc, fi.qualname, 'single-exit', 'NoteRestToken.export has a single exit after both parts are built',
-              f'{len(rets)} return statements')
+    PD, DECO = 'self.pitch_duration_subtokens', 'self.decoration_subtokens'
+    for j, ep in joins:
+        at = f'{fi.module.relpath}:{j.node.lineno}'
+        which = c01.SRC_NAMES[j.seq.source]
+        ctx.check(not j.seq.sliced, 'R4', at, fi.qualname, f'sliced-join:{which}',
+                  f'{which}: no slice or index between the list and the join', f'{which}: a slice/index drops sub-tokens before `{src(j.node)[:60]}`')
+        ctx.check(src(j.seq.elt) == '_e.encoding', 'R4', at, fi.qualname, f'join-element:{which}',
+                  f'{which}: each element contributes its encoding unchanged', f'{which}: elements contribute `{src(j.seq.elt)[:60]}`')
+        extra = [a for a in G.atoms_of(j.seq.filter()) if 'filter_categories' not in a]
+        foreign = [a for a in extra if not (a.startswith('_e.category == TokenCategory.') or (a.startswith('TokenCategory.') and a.endswith(' == _e.category')))]
+        ctx.check(not foreign, 'R4', at, fi.qualname, f'join-extra-filter:{which}',
+                  f'{which}: besides the category predicate, the only selection is by the category of the element',
+                  f'{which}: sub-tokens are additionally filtered by `{foreign[0][:80] if foreign else ""}`')
+    # per path: the whole pitch/duration list reaches the text - either unsplit, or split by category into parts that together
+    # cover DURATION, PITCH and ALTERATION; the signifier list is present unless the path is taken because it is empty
+    bad = []
+    n = 0
+    for ep in eps:
+        if len(ep.pieces) == 1 and ep.pieces[0].kind == 'const':
+            continue        # the EMPTY_TOKEN exit
+        n += 1
+        pdj = ep.joins(PD)
+        cats = [j.seq.category_tests() for j in pdj]
+        if not pdj:
+            bad.append('a path emits no pitch/duration sub-token')
+        elif not any(not c for c in cats):
+            covered = set().union(*cats)
+            if not {'DURATION', 'PITCH', 'ALTERATION'} <= covered and not _path_excludes(ep, {'DURATION', 'PITCH', 'ALTERATION'} - covered):
+                bad.append(f'a path emits only the {sorted(covered)} sub-tokens of the pitch/duration list')
+        if not ep.joins(DECO) and DECO not in G.show(ep.cond):
+            bad.append('a path emits no signifier although the signifier list was not tested to be empty')
+        if any(j.seq.category_tests() for j in ep.joins(DECO)):
+            bad.append('signifiers are selected by category')
+    ctx.check(not bad and n > 0, 'R4', fi.loc, fi.qualname, 'whole-lists-exported',
+              f'on each of the {n} text-producing paths the whole pitch/duration list (unsplit, or split into DURATION + PITCH + '
+              f'ALTERATION) and the whole signifier list reach the exported text', '; '.join(sorted(set(bad))[:3]))
+
+
+def _path_excludes(ep, cats):
+    """The path condition says that the list has no element of these categories (an emptiness test of exactly that selection)."""
+    t = G.show(ep.cond)
+    return all(f'TokenCategory.{c}' in t for c in cats)
 
 
 def r5_grid(ctx):
+    from . import export_model as EM
     es = ctx.prog.func(f'{EXP}.export_string')
-    loops = [n for n in walk_local(es.node) if isinstance(n, ast.For) and src(n.iter) == 'rows']
-    ok = len(loops) == 1
-    if ok:
-        lp = loops[0]
-        body = lp.body
-        ok = len(body) == 1 and isinstance(body[0], ast.If) and src(body[0].test) == f'not empty_row({lp.target.id})' and not body[0].orelse \
-            and len(body[0].body) == 1 and isinstance(body[0].body[0], ast.AugAssign) \
-            and src(body[0].body[0].value) == f"'\\t'.join({lp.target.id}) + '\\n'" and isinstance(body[0].body[0].op, ast.Add)
+    env = G.single_assignments(es.node)
+    rets = [n for n in walk_local(es.node) if isinstance(n, ast.Return)]
+    ok = bool(rets)
+    why = ''
+    for r in rets:
+        val = G.substitute(r.value, env) if r.value is not None else None
+        pcs = EM.pieces_of(val, {'rows'}) if val is not None else []
+        good = len(pcs) == 1 and pcs[0].kind == 'join' and pcs[0].sep == "''"
+        if good:
+            q = pcs[0].seq
+            good = not q.sorts and not q.sliced and not q.hashed and src(q.elt) == "'\\t'.join(_e) + '\\n'" \
+                and G.canonical(q.filter()) == 'not empty_row(_e)'
+        if not good:
+            ok = False
+            why = f'export_string returns `{src(val)[:120]}`'
     ctx.check(ok, 'R5', es.loc, es.qualname, 'grid-assembly',
               'every non-empty row is emitted once, in order, as TAB-joined cells followed by a newline',
-              'the final assembly loop is not `for row in rows: if not empty_row(row): result += TAB.join(row) + NEWLINE`')
-    rets = [n for n in walk_local(es.node) if isinstance(n, ast.Return)]
-    ctx.check(len(rets) == 1 and src(rets[0].value) == 'result', 'R5', es.loc, es.qualname, 'grid-returned', 'the assembled text is returned unchanged')
+              why + ': not the rows that are not empty_row, in order, each as TAB.join(row) + NEWLINE')
